@@ -6,7 +6,7 @@ CONSTANTS
   MaxDepth = 15
   MaxClock = 1
   Limit <- Limit_Sim
-  Ops = {"create", "mtagauto", "createfault", "attr", "link", "delete"}
+  Ops = {"create", "mtagauto", "createfault", "attr", "link", "extend", "delete"}
   Faults = {"DuplicateName", "BadName", "NoneType", "WrongKind", "ForeignBlock", "NotMember", "Required", "NotFound", "BadLinkType"}
   Script <- Script_Links
   CopyKeep = {}
